@@ -8,8 +8,12 @@ API (reusable by other properties, e.g. C12/C14)
                                         fine=True additionally parks the worker main thread
                                         inside Worker._process_await (aw1/aw1c/aw2).
   sim.add_client() -> c                 a fake client connection registered at the server
-  sim.submit_root(c, script, nid)       real handle_new_comp_task + handle_request; returns
-                                        dict(box=<server mailbox id>, target=<worker>, uuid=..)
+  sim.submit_root(c, script, nid, falsy=None)
+                                        real handle_new_comp_task; returns dict(box=<server mailbox id>,
+                                        target=<worker>, uuid=..).  falsy in FALSY_KINDS makes the root's result a
+                                        falsy-but-not-None python object (empty Circuit, 0, '', [], ()) tagged with nid
+  sim.request(c, root) / sim.status(c, root)
+                                        the client's REQUEST / STATUS through the real server handlers
   sim.enabled() -> [('recv', i) | ('recv2', i) | ('main', i) | ('server', i)]
   sim.do(ev) -> info                    executes exactly one event:
        ('recv', i)    worker i's real receiving thread (recv_incoming) handles the next message
@@ -28,6 +32,10 @@ API (reusable by other properties, e.g. C12/C14)
   sim.log                               what the task bodies saw: ('start', nid, addr),
                                         ('obs', nid, f, kind, value), ('ret', nid, v)
   sim.close()                           stops all threads (always call; use try/finally)
+
+sim.arm_gnr_gate(i): the main thread of worker i is additionally parked before EVERY source line of
+WorkerMailbox.get_new_results (label 'gnr'), so that the caller can let the receiving thread deposit further
+results in between (sim.arm_deposit_gate(i) is the dual: receiving thread parked inside deposit_result).
 
 Gates of the main thread (label = where it is parked):  loop (top of `while True` in
 _get_next_ready_task, inside Queue.empty()), promote (before _delayed_tasks.pop()), get
@@ -98,7 +106,39 @@ _dmod.time = type('T', (), {'sleep': staticmethod(lambda s: None), 'time': stati
 _LOG: list = []                                # replaced per Sim (single Sim alive at a time per process)
 
 
+FALSY_KINDS = ('circuit', 'int', 'str', 'list', 'tuple')
+
+
+class _TInt(int):
+    pass
+
+
+class _TStr(str):
+    pass
+
+
+class _TList(list):
+    pass
+
+
+class _TTuple(tuple):
+    pass
+
+
+def make_falsy(kind, tag):
+    """A falsy, not-None result object that remembers which task returned it."""
+    if kind == 'circuit':
+        v = Circuit(1)                  # no operations: len(v) == 0, so bool(v) is False
+    else:
+        v = {'int': _TInt, 'str': _TStr, 'list': _TList, 'tuple': _TTuple}[kind]()
+    v.c07_tag = tag
+    assert not v and v is not None
+    return v
+
+
 def _canon_val(v):
+    if hasattr(v, 'c07_tag'):
+        return v.c07_tag
     if v is None or isinstance(v, int):
         return v
     if isinstance(v, (list, tuple)):
@@ -143,24 +183,25 @@ async def body(script, nid):
 
 
 class FakeWorkflow:
-    def __init__(self, script, nid):
-        self.script, self.nid, self.owner = script, nid, None
+    def __init__(self, script, nid, falsy=None):
+        self.script, self.nid, self.owner, self.falsy = script, nid, None, falsy
 
     async def run(self, circuit, data):
-        self.owner.circuit = await body(self.script, self.nid)
+        v = await body(self.script, self.nid)
+        self.owner.circuit = make_falsy(self.falsy, v) if self.falsy else v
 
 
 class FakeCT:
     """Stands for CompilationTask: the real CompilationTask.run is the root body."""
 
-    def __init__(self, script, nid):
+    def __init__(self, script, nid, falsy=None):
         self.task_id = uuid.uuid4()
         self.logging_level = None
         self.max_logging_depth = -1
         self.request_data = False
         self.circuit = None
         self.data = None
-        self.workflow = FakeWorkflow(script, nid)
+        self.workflow = FakeWorkflow(script, nid, falsy)
         self.workflow.owner = self
 
 
@@ -418,9 +459,19 @@ class WorkerRig:
                 self.gate.park(markers[frame.f_lineno], (tuple(t.return_address), f.mailbox_id, bool(f._next_flag)))
             return local
 
+        gnr_code = wmod.WorkerMailbox.get_new_results.__code__
+        self.gnr_armed = False
+
+        def local_gnr(frame, event, arg):
+            if event == 'line' and self.gnr_armed:
+                self.gate.park('gnr', frame.f_lineno)
+            return local_gnr
+
         def tracer(frame, event, arg):
             if frame.f_code is code:
                 return local
+            if frame.f_code is gnr_code:
+                return local_gnr
             return None
 
         def run():
@@ -578,8 +629,8 @@ class Sim:
         self.clients.append(c)
         return len(self.clients) - 1
 
-    def submit_root(self, c: int, script, nid) -> dict:
-        ct = FakeCT(script, nid)
+    def submit_root(self, c: int, script, nid, falsy=None) -> dict:
+        ct = FakeCT(script, nid, falsy)
         conn = self.clients[c]
         before = [len(d) for d in self.down]
         self._with_rng(lambda: self.server.handle_message(M.SUBMIT, D.CLIENT, conn, ct))
@@ -594,6 +645,16 @@ class Sim:
         """The client's blocking result(): REQUEST now, the RESULT shows up in clients[c].inbox."""
         self.server.handle_message(M.REQUEST, D.CLIENT, self.clients[c], root['uuid'])
         self._drain()
+
+    def status(self, c: int, root: dict) -> str:
+        """The client's status(): 'DONE' / 'RUNNING' / 'UNKNOWN' as answered by the real server."""
+        conn = self.clients[c]
+        n = len(conn.inbox)
+        self.server.handle_message(M.STATUS, D.CLIENT, conn, root['uuid'])
+        self._drain()
+        ans = [p for m, p in conn.inbox[n:] if m == M.STATUS]
+        conn.inbox[n:] = [mp for mp in conn.inbox[n:] if mp[0] != M.STATUS]
+        return ans[0].name if len(ans) == 1 else 'ANSWERS=%d' % len(ans)
 
     # -- events ------------------------------------------------------------
     def enabled(self):
@@ -639,6 +700,10 @@ class Sim:
                 self.server_dead = repr(e)
             info['asg'] = self._drain(batch)
         return info
+
+    def arm_gnr_gate(self, i, on=True):
+        """Park the main thread of worker i before every source line of WorkerMailbox.get_new_results."""
+        self.workers[i].gnr_armed = on
 
     def arm_deposit_gate(self, i):
         """The next RESULT handled by worker i parks its receiving thread inside deposit_result."""
